@@ -54,7 +54,7 @@ P['C05']={
  "posts":{
   H+"redirectToIDP":["old_sid","new_sid","no_gen","redirect","inv","view","error_shape"],
   H+"retrieveTokens":["inv","view"],
-  H+"Process":["inv","logout"],
+  H+"Process":["inv","logout","deny_content"],
   A+"getCookieName":[], A+"getCookieDirectives":[], A+"generateSetCookieHeader":[], "http.EncodeCookieHeader":[],
   A+"setSetCookieHeader":[],
  },
